@@ -31,6 +31,7 @@
 #include "common.hpp"
 #include "osm_dump.hpp"
 
+#include <cctype>
 #include <osmium/builder/attr.hpp>
 #include <osmium/io/compression.hpp>
 #include <osmium/io/detail/input_format.hpp>
@@ -477,20 +478,27 @@ std::string do_gen(const std::string& dir, const std::vector<std::string>& w) {
                 std::vector<std::pair<const char*, const char*>> tags;
                 for (std::size_t k = rng.below(4); k > 0; --k) tags.emplace_back(keys[rng.below(8)], keys[rng.below(8)]);
                 const osmium::Timestamp ts{static_cast<uint32_t>(1000000 + rng.below(100000))};
-                switch (order[s]) {
+                // an upper-case section letter makes the FIRST object of the section larger than the
+                // (hooked, 256-byte) initial buffer of the parsers: the buffer has to grow while it
+                // holds no committed object yet (first object of a block / of the parser's buffer)
+                const bool big = std::isupper(static_cast<unsigned char>(order[s])) && i == 0;
+                if (big) {
+                    for (std::size_t k = 0; k < 14; ++k) tags.emplace_back(keys[rng.below(8)], "a-rather-long-tag-value-to-fill-the-buffer");
+                }
+                switch (std::tolower(static_cast<unsigned char>(order[s]))) {
                     case 'n':
                         osmium::builder::add_node(buffer, _id(id), _version(1 + rng.below(3)), _timestamp(ts), _cid(1 + rng.below(1000)), _uid(uid), _user(user),
                             _location(osmium::Location{static_cast<int32_t>(static_cast<int64_t>(rng.below(3600000001ULL)) - 1800000000), static_cast<int32_t>(static_cast<int64_t>(rng.below(1800000001ULL)) - 900000000)}), _tags(tags));
                         break;
                     case 'w': {
                         std::vector<osmium::object_id_type> refs;
-                        for (std::size_t k = 1 + rng.below(5); k > 0; --k) refs.push_back(static_cast<int64_t>(1 + rng.below(100)));
+                        for (std::size_t k = (big ? 50 : 1) + rng.below(5); k > 0; --k) refs.push_back(static_cast<int64_t>(1 + rng.below(100)));
                         osmium::builder::add_way(buffer, _id(id), _version(1 + rng.below(3)), _timestamp(ts), _cid(1 + rng.below(1000)), _uid(uid), _user(user), _nodes(refs), _tags(tags));
                         break;
                     }
                     case 'r': {
                         std::vector<osmium::builder::attr::member_type> members;
-                        for (std::size_t k = rng.below(4); k > 0; --k) members.emplace_back(osmium::nwr_index_to_item_type(static_cast<unsigned>(rng.below(3))), static_cast<int64_t>(1 + rng.below(100)), keys[rng.below(8)]);
+                        for (std::size_t k = (big ? 30 : 0) + rng.below(4); k > 0; --k) members.emplace_back(osmium::nwr_index_to_item_type(static_cast<unsigned>(rng.below(3))), static_cast<int64_t>(1 + rng.below(100)), keys[rng.below(8)]);
                         osmium::builder::add_relation(buffer, _id(id), _version(1 + rng.below(3)), _timestamp(ts), _cid(1 + rng.below(1000)), _uid(uid), _user(user), _members(members), _tags(tags));
                         break;
                     }
